@@ -230,6 +230,9 @@ def _record(check_id, scn, order, hist, ev, problems, found):
 
 def replay_case(case):
     """Re-run one recorded case without the explorer; returns sorted list of signatures."""
+    if case["scenario"] not in SCENARIOS:
+        from . import scenarios
+        scenarios.naming_scenarios()   # (the naming scopes register themselves when first asked for)
     scn = SCENARIOS[case["scenario"]]
     ev = case["event"]
     outcome, dig, problems, _ = run_one(case["check"], scn, case["order"], case["history"], ev)
